@@ -34,9 +34,140 @@ TASKS = [FunctionTask(CHECK_NYQUIST, clauses=["centre frequencies above Nyquist 
 
 META = dict(
     level="other",
-    explanation="proved: check_nyquist_frequency raises ValueError iff some centre frequency exceeds 1/(2 dt) (for all vectors); bounded: the "
+    explanation="proved: prepare_records_with_inconsistent_dt for the three policies (retained recordings = the subsequence with the smallest / a most "
+                "frequent step, as the same objects in original order; dictionary = step -> count), check_nyquist_frequency raises ValueError iff some "
+                "centre frequency exceeds 1/(2 dt); bounded: the "
                 "order / independence / policy clauses are evaluated natively for every arrangement of <=3 time steps over 1-4 recordings, 4 "
                 "methods x 3 policies, each row compared with the recording processed alone; Nyquist refusal for 11 arrangements x 6 frequencies",
     trusted_base=["A-REAL", "A-PY", "A-NP-MAX (max of an array bounds every element and is attained)", "PyVC engine + z3/cvc5"],
     assumptions=["A-REAL", "A-PY", "A-NP-MAX", "A-DICT"],
 )
+
+
+# ---------------------------------------------------------------------------------------------------------------------
+# prepare_records_with_inconsistent_dt: time-step bookkeeping (dictionary with float keys) and the three policies
+from pyvc.core import StrV, Tup
+from pyvc.contract import LemmaTask, sym_obj
+from pyvc import objects
+from pyvc.objects import fld, new_symlist
+
+L = z3.Int("L")
+RECS = z3.Const("record_ids", z3.ArraySort(I, I))
+
+
+def DT(i):
+    """time step of record i (its ns component), as the code reads it"""
+    return fld("TimeSeries", "dt_in_seconds", R)(fld("SeismicRecording3C", "ns", I)(z3.Select(RECS, i)))
+
+
+CNT = z3.Function("CNT", R, I, I)       # CNT(d, i) = number of records j < i with time step d
+d_, i_, j_ = z3.Real("d!c"), z3.Int("i!c"), z3.Int("j!c")
+AX_CNT = [
+    z3.ForAll([d_], CNT(d_, 0) == 0, patterns=[CNT(d_, 0)]),
+    z3.ForAll([d_, i_], z3.Implies(i_ >= 0, CNT(d_, i_ + 1) == CNT(d_, i_) + z3.If(DT(i_) == d_, 1, 0)), patterns=[CNT(d_, i_ + 1)]),
+    # monotonicity and range of the counting function: consequences of the unfolding by induction on the index (base/step lemmas below;
+    # the induction schema itself is applied by hand: A-INDUCTION)
+    z3.ForAll([d_, i_, j_], z3.Implies(z3.And(0 <= i_, i_ <= j_), CNT(d_, i_) <= CNT(d_, j_)), patterns=[z3.MultiPattern(CNT(d_, i_), CNT(d_, j_))]),
+    z3.ForAll([d_, i_], z3.Implies(i_ >= 0, z3.And(CNT(d_, i_) >= 0, CNT(d_, i_) <= i_)), patterns=[CNT(d_, i_)]),
+]
+CNT_LEMMAS = [
+    LemmaTask("cnt-monotone[step]", AX_CNT[:2] + [i_ >= 0, j_ >= i_, CNT(d_, i_) <= CNT(d_, j_)], CNT(d_, i_) <= CNT(d_, j_ + 1), "CNT(d,i) <= CNT(d,j) ==> CNT(d,i) <= CNT(d,j+1)"),
+    LemmaTask("cnt-range[step]", AX_CNT[:2] + [i_ >= 0, CNT(d_, i_) >= 0, CNT(d_, i_) <= i_], z3.And(CNT(d_, i_ + 1) >= 0, CNT(d_, i_ + 1) <= i_ + 1), "0 <= CNT(d,i) <= i"),
+]
+
+
+def _prep_inputs(policy):
+    def mk(ex, st):
+        st.env["records"] = new_symlist(ex, st, "SeismicRecording3C", length=L, arr=RECS, owner="param:records", name="records")
+        st.env["settings"] = sym_obj(ex, st, "Settings", {"handle_dissimilar_time_steps_by": StrV(policy)}, owner="param:settings")
+        st.env["L"] = L
+        k = z3.Int("k!dt")
+        return [L >= 1, z3.ForAll([k], DT(k) > 0, patterns=[DT(k)])]
+    return mk
+
+
+COUNT_INV = [
+    # the dictionary holds exactly the distinct time steps seen so far, each with its count
+    "forall_real(d, implies(not dt_with_count_has(d), CNT(d, _k0) == 0))",
+    "forall_real(d, implies(dt_with_count_has(d), dt_with_count_val(d) == CNT(d, _k0) and CNT(d, _k0) >= 1))",
+    "dt_with_count_wf()",
+    "forall(t, 0, dt_with_count_nk(), dt_with_count_val(dt_with_count_key(t)) >= 1)",
+]
+
+
+def _dict_ghosts(name):
+    """spec-level accessors of the symbolic dictionary held in local `name` (evaluated in the current state)"""
+    from pyvc.core import FuncV
+
+    def has(ex, st, args, kw, node):
+        return z3.Select(st.heap[st.env[name].sid].has, args[0])
+
+    def val(ex, st, args, kw, node):
+        return z3.Select(st.heap[st.env[name].sid].val, args[0])
+
+    def key(ex, st, args, kw, node):
+        return z3.Select(st.heap[st.env[name].sid].keys, args[0])
+
+    def nk(ex, st, args, kw, node):
+        return st.heap[st.env[name].sid].nk
+
+    def wf(ex, st, args, kw, node):
+        return z3.And(*objects.symdict_wf(st.heap[st.env[name].sid]))
+    return {f"{name}_has": FuncV(has), f"{name}_val": FuncV(val), f"{name}_key": FuncV(key), f"{name}_nk": FuncV(nk), f"{name}_wf": FuncV(wf)}
+
+
+def _res_dict_ghosts():
+    """accessors of the dictionary returned as result[1]"""
+    from pyvc.core import FuncV
+
+    def mk(field):
+        def f(ex, st, args, kw, node):
+            dd = st.heap[st.env["result"][1].sid]
+            if field == "nk":
+                return dd.nk
+            if field == "wf":
+                return z3.And(*objects.symdict_wf(dd))
+            return z3.Select(getattr(dd, field), args[0])
+        return FuncV(f)
+    return {"res_has": mk("has"), "res_val": mk("val"), "res_key": mk("keys"), "res_nk": mk("nk"), "res_wf": mk("wf")}
+
+
+GH = {"DT": lambda i: DT(i), "CNT": CNT}
+GH.update(_dict_ghosts("dt_with_count"))
+GH.update(_res_dict_ghosts())
+
+def SUBSEQ(d):
+    return [f"len(result[0]) == CNT({d}, L)",
+            f"forall(i, 0, L, implies(DT(i) == {d}, result[0][CNT({d}, i)] is records[i]))",
+            f"res_nk() == 1 and res_key(0) == {d} and res_has({d})",
+            f"res_val({d}) == CNT({d}, L)"]
+
+
+PREP = {
+    "frequency_domain_resampling": Contract(
+        qual="hvsrpy.processing.prepare_records_with_inconsistent_dt", params=["records", "settings"], ghost=GH,
+        ensures=["result[0] is records",
+                 "forall_real(d, res_has(d) == (CNT(d, L) >= 1))", "forall_real(d, implies(res_has(d), res_val(d) == CNT(d, L)))", "res_wf()"],
+        loops={0: COUNT_INV}, sym_dicts=("dt_with_count",), axioms=AX_CNT, make_inputs=_prep_inputs("frequency_domain_resampling"), modifies=[]),
+    "keeping_smallest_time_step": Contract(
+        qual="hvsrpy.processing.prepare_records_with_inconsistent_dt", params=["records", "settings"], ghost=GH,
+        ensures=["forall_real(d, implies(CNT(d, L) >= 1, smallest_dt <= d))", "CNT(smallest_dt, L) >= 1"] + SUBSEQ("smallest_dt"),
+        loops={0: COUNT_INV,
+               1: ["count == CNT(smallest_dt, _k1)", "len(abbr_records) == count",
+                   "forall(i, 0, _k1, implies(DT(i) == smallest_dt, abbr_records[CNT(smallest_dt, i)] is records[i]))"]},
+        sym_dicts=("dt_with_count",), sym_lists={"abbr_records": "SeismicRecording3C"}, axioms=AX_CNT, make_inputs=_prep_inputs("keeping_smallest_time_step"), modifies=[]),
+    "keeping_majority_time_step": Contract(
+        qual="hvsrpy.processing.prepare_records_with_inconsistent_dt", params=["records", "settings"], ghost=GH,
+        ensures=["forall_real(d, CNT(d, L) <= CNT(majority_dt, L))", "CNT(majority_dt, L) >= 1"] + SUBSEQ("majority_dt"),
+        loops={0: COUNT_INV,
+               2: ["majority_count >= 0", "_k2 > 0 or majority_count == 0",
+                   "forall(t, 0, _k2, dt_with_count_val(dt_with_count_key(t)) <= majority_count)",
+                   "_k2 == 0 or (majority_count >= 1 and dt_with_count_has(majority_dt) and dt_with_count_val(majority_dt) == majority_count)"],
+               3: ["count == CNT(majority_dt, _k3)", "len(abbr_records) == count",
+                   "forall(i, 0, _k3, implies(DT(i) == majority_dt, abbr_records[CNT(majority_dt, i)] is records[i]))"]},
+        sym_dicts=("dt_with_count",), sym_lists={"abbr_records": "SeismicRecording3C"}, axioms=AX_CNT, make_inputs=_prep_inputs("keeping_majority_time_step"), modifies=[]),
+}
+for _pol, _c in PREP.items():
+    TASKS.append(FunctionTask(_c, label=f"hvsrpy.processing.prepare_records_with_inconsistent_dt[{_pol}]",
+                              clauses=["the retained recordings are exactly those with the smallest / a most frequent step, in original order; dictionary = step -> count"]))
+TASKS += CNT_LEMMAS
